@@ -37,6 +37,10 @@ def screen(path):
         done = subprocess.run([os.path.join(HERE, "check"), pid, "--tier", "quick"], capture_output=True, text=True, env=env, cwd=HERE)
         sigs = [l.strip()[4:].split(" cases=")[0] for l in done.stdout.splitlines() if l.strip().startswith("sig=")]
         verdict = {0: "MISSED", 1: "caught", 2: "harness error"}.get(done.returncode, "exit %d" % done.returncode)
+        meta_path = os.path.join(os.path.dirname(path), "meta.json")
+        if done.returncode == 0 and path.endswith("patch.diff") and os.path.exists(meta_path) and json.load(open(meta_path)).get("neutralised_by"):
+            # a later repair of /repo took the sting out of this change: it does not break the property any more
+            verdict = "silent (change neutralised by a later fix, see meta.json)"
         return name, pid, base[0] if base else "?", verdict, "; ".join(sigs[:2])[:160]
     finally:
         shutil.rmtree(scratch, ignore_errors=True)
